@@ -739,9 +739,20 @@ class Driver:
                 self.shadow.extend(b"\0" * (off - len(self.shadow)))
             self.shadow[off:off + len(data)] = data
 
-    def observe_reader(self, h):
+    def observe_reader(self, h, defs=False):
         """dump of everything the reader exposes, as compact projections (runs, tokens)"""
         obs = {"sigs": [], "annos": [], "utcs": []}
+        if defs:
+            ps = ct.POINTER(SourceDef)()
+            c1 = ct.c_uint16(0)
+            rc1 = self.L.jls_rd_sources(h, ct.byref(ps), ct.byref(c1))
+            pg = ct.POINTER(SignalDef)()
+            c2 = ct.c_uint16(0)
+            rc2 = self.L.jls_rd_signals(h, ct.byref(pg), ct.byref(c2))
+            obs["defs"] = {"rc": rc1 or rc2,
+                           "srcs": [[ps[i].source_id] + [str_tok(x) for x in (ps[i].name, ps[i].vendor, ps[i].model, ps[i].version, ps[i].serial_number)]
+                                    for i in range(c1.value)] if rc1 == 0 else [],
+                           "sigs": [self.sigdef_rec(pg[i]) for i in range(c2.value)] if rc2 == 0 else []}
         p = ct.POINTER(SignalDef)()
         cnt = ct.c_uint16(0)
         rc = self.L.jls_rd_signals(h, ct.byref(p), ct.byref(cnt))
@@ -905,6 +916,123 @@ class Driver:
                    "sigs": obs["sigs"], "annos": obs["annos"], "utcs": obs["utcs"], "ud": obs["ud"], "nsig": obs.get("nsig", 0),
                    "re": res.get("re", {"rc": 0, "wcount": 0, "modified": False, "same": True}),
                    "closed_ok": bool(res.get("closed_ok", True)), "closed_why": res.get("closed_why", ""), "size": len(img)})
+        try:
+            os.remove(ipath)
+        except OSError:
+            pass
+
+    # -- corruption (C04) ---------------------------------------------------------
+    def op_faultscan(self, op):
+        """Alter bytes of the closed file 'a' (fault list from the program), open each altered copy with
+        the real reader in a child process and record one FaultObs event per fault."""
+        import lifter
+        with open(self.path(op.get("file", "a")), "rb") as f:
+            img = f.read()
+        fh, chunks, why = lifter.parse_image(img)
+        # protected regions of the file: file header, each chunk header, each payload+pad+crc
+        regions = [(0, 32, "filehdr", 0)]
+        for ch in chunks:
+            regions.append((ch["off"], ch["off"] + 32, "hdr", ch["tag"]))
+            if ch["plen"]:
+                regions.append((ch["off"] + 32, ch["off"] + 32 + lifter.disk_size(ch["plen"]), "payload", ch["tag"]))
+        rng = np.random.default_rng(op.get("seed", 1))
+        faults = []
+        mode = op.get("mode", "bits")
+        nbits = len(img) * 8
+        if mode == "bits":          # every single-bit flip (optionally strided)
+            st = op.get("stride", 1)
+            faults = [("bit", [b]) for b in range(op.get("phase", 0) % st, nbits, st)]
+        elif mode == "multi":       # 2- and 3-bit flips and bursts inside one protected region; zeroed / overwritten ranges; several regions
+            for _ in range(op.get("count", 1000)):
+                lo, hi, kind, tag = regions[int(rng.integers(0, len(regions)))]
+                r = rng.random()
+                if r < 0.3:
+                    faults.append(("bits2", [int(b) for b in rng.choice(np.arange(lo * 8, hi * 8), size=2, replace=False)]))
+                elif r < 0.55:
+                    faults.append(("bits3", [int(b) for b in rng.choice(np.arange(lo * 8, hi * 8), size=3, replace=False)]))
+                elif r < 0.8:
+                    ln = int(rng.integers(2, 33))
+                    b0 = int(rng.integers(lo * 8, max(lo * 8 + 1, hi * 8 - ln)))
+                    pat = [b0, b0 + ln - 1] + [b0 + int(k) for k in range(1, ln - 1) if rng.random() < 0.5]
+                    faults.append(("burst", sorted(set(pat))))
+                elif r < 0.9:
+                    a = int(rng.integers(lo, hi))
+                    n = int(rng.integers(1, min(64, hi - a) + 1))
+                    faults.append(("zero", [a, n]))
+                else:
+                    lo2, hi2, _, _ = regions[int(rng.integers(0, len(regions)))]
+                    faults.append(("bits2x", [int(rng.integers(lo * 8, hi * 8)), int(rng.integers(lo2 * 8, hi2 * 8))]))
+        ipath_lock = self.path("crash")
+        for (kind, arg) in faults:
+            b = bytearray(img)
+            if kind == "zero":
+                b[arg[0]:arg[0] + arg[1]] = bytes(arg[1])
+                where = arg[0]
+            else:
+                for bit in arg:
+                    b[bit >> 3] ^= 1 << (bit & 7)
+                where = arg[0] >> 3
+            if bytes(b) == img:
+                continue
+            reg = next(((k_, t_) for (lo, hi, k_, t_) in regions if lo <= where < hi), ("none", 0))
+            self.fault_obs(bytes(b), kind, arg, reg)
+
+    def fault_obs(self, img, kind, arg, reg):
+        import hashlib
+        import select
+        ipath = self.path("crash")
+        with open(ipath, "wb") as f:
+            f.write(img)
+        rfd, wfd = os.pipe()
+        pid = os.fork()
+        if pid == 0:
+            try:
+                os.close(rfd)
+                h = ct.c_void_p()
+                w0 = self.L.iow_count()
+                rc = self.L.jls_rd_open(ct.byref(h), ipath)
+                res = {"rc": rc}
+                res["wcount"] = sum(1 for i in range(w0, self.L.iow_count()) if self.L.iow_get(i).contents.kind in (IOW_WRITE, IOW_TRUNC))
+                with open(ipath, "rb") as f:
+                    res["modified"] = f.read() != img
+                if rc == 0:
+                    res["obs"] = self.observe_reader(h, defs=True)
+                    self.L.jls_rd_close(h)
+                os.write(wfd, json.dumps(res).encode())
+            finally:
+                os._exit(0)
+        os.close(wfd)
+        buf = b""
+        term = "ok"
+        import time as _t
+        t0 = _t.time()
+        while True:
+            r, _, _ = select.select([rfd], [], [], max(0.0, 3.0 - (_t.time() - t0)))
+            if not r:
+                term = "hang"
+                os.kill(pid, 9)
+                break
+            chunk = os.read(rfd, 1 << 20)
+            if not chunk:
+                break
+            buf += chunk
+        os.close(rfd)
+        os.waitpid(pid, 0)
+        res = {}
+        if term == "ok":
+            try:
+                res = json.loads(buf.decode())
+            except ValueError:
+                term = "crash"
+        obs = res.get("obs", {"sigs": [], "annos": [], "utcs": [], "ud": {"rc": 0, "items": []}, "nsig": 0, "defs": {"rc": 0, "srcs": [], "sigs": []}})
+        for ent in obs["sigs"]:
+            ent.setdefault("first", 0)
+            ent["ondisk"] = 0
+        self.emit({"e": "FaultObs", "fault": kind, "arg": arg[:6], "region": reg[0], "tag": reg[1], "term": term, "rc": res.get("rc", -1),
+                   "wcount": res.get("wcount", 0), "modified": bool(res.get("modified", False)),
+                   "sigs": obs["sigs"], "annos": obs["annos"], "utcs": obs["utcs"], "ud": obs["ud"], "nsig": obs.get("nsig", 0),
+                   "defs": obs.get("defs", {"rc": 0, "srcs": [], "sigs": []}), "j": 1, "after_defs": False,
+                   "re": {"rc": 0, "wcount": 0, "modified": False, "same": True}, "closed_ok": True})
         try:
             os.remove(ipath)
         except OSError:
